@@ -871,7 +871,16 @@ class Filters:
         Returns:
             The string representation of the type hint.
         """
-        result = self._field_type_names(obj, choice, choice=True)
+        type_names = collections.unique_sequence(
+            self._field_type_name(obj, x, choice=True) for x in choice.types
+        )
+        if len(type_names) > 1:
+            # A quoted forward reference can't be or-ed with a type at runtime
+            type_names = [
+                f"ForwardRef({name})" if name.startswith('"') else name
+                for name in type_names
+            ]
+        result = self._join_type_names(type_names)
 
         if choice.is_tokens:
             iterable_fmt = self._get_iterable_format()
@@ -957,7 +966,7 @@ class Filters:
             "decimal": {"Decimal": type_patterns("Decimal")},
             "enum": {"Enum": ["(Enum)"]},
             "typing": {
-                "ForwardRef": [": ForwardRef("],
+                "ForwardRef": [": ForwardRef(", "| ForwardRef(", "[ForwardRef("],
                 "Any": type_patterns("Any"),
             },
             "collections.abc": {
